@@ -218,9 +218,9 @@ def pure_shard(seed, n):
 
 def run(tier, seed):
     from vlib.shards import run_jobs
-    nr = 64 if tier == "quick" else 800
+    nr = 64 if tier == "quick" else 3200
     jobs = [{"module": "props.c18", "func": "real_shard", "kwargs": {"seed": common.derive_seed(seed, ID, "r", i), "n": nr // 16, "tier": tier}} for i in range(16)]
-    jobs.append({"module": "props.c18", "func": "pure_shard", "kwargs": {"seed": common.derive_seed(seed, ID, "p"), "n": 2000 if tier == "quick" else 20000}})
+    jobs.append({"module": "props.c18", "func": "pure_shard", "kwargs": {"seed": common.derive_seed(seed, ID, "p"), "n": 2000 if tier == "quick" else 100000}})
     acc, not_run = run_jobs(jobs, tag="c18", timeout_s=1500 if tier == "quick" else 7200)
     if not_run:
         acc.notes.append(f"{not_run} shard processes hit the wall-clock cap")
